@@ -169,6 +169,37 @@ def pcn_target_forms(c, iface, form):
         c.holds('likelihood_attribute_is_the_targets_likelihood', s.likelihood is like)
 
 
+def fresh_sampler_invariant(c, name):
+    """history 'fresh': a sampler built by its PUBLIC constructor with an explicit starting point x0 (any point, not the default) and initialised
+    (also re-initialised) satisfies the invariant the kernel contracts start from - the state is x0 and every cached evaluation is the target's
+    value AT x0; so the first transition's acceptance ratio is pi(x')/pi(x0)"""
+    import cuqi
+    from cuqi.distribution import Gaussian, Posterior, UserDefinedDistribution
+    from cuqi.likelihood import UserDefinedLikelihood
+    n = 2
+    x0 = c.vec('x0', n)
+    F = lambda x: c.uf('logpi', *list(np.asarray(x, dtype=object if c.sym else float).reshape(-1)))
+    G = lambda x: np.array([c.uf(f'gradlogpi{i}', *list(np.asarray(x, dtype=object if c.sym else float).reshape(-1))) for i in range(n)], dtype=object if c.sym else float)
+    if name == 'PCN':
+        prior = Gaussian(np.zeros(n), 1.0, name='x')
+        like = UserDefinedLikelihood(dim=n, logpdf_func=F)
+        tgt = Posterior(like, prior)
+    else:
+        tgt = UserDefinedDistribution(dim=n, logpdf_func=F, gradient_func=G)
+    cls = getattr(cuqi.experimental.mcmc, name)
+    s = cls(tgt, initial_point=x0, **({'scale': 0.3} if name != 'CWMH' else {}))
+    for rnd in ('initialised', 'reinitialised'):
+        s.initialize() if rnd == 'initialised' else s.reinitialize()
+        if rnd == 'reinitialised' and not getattr(s, '_is_initialized', True): s.initialize()
+        c.eq(f'{rnd}:state_is_the_given_starting_point', np.asarray(s.current_point), x0)
+        if name == 'PCN':
+            c.eq(f'{rnd}:cached_likelihood_value_belongs_to_the_state', s.current_likelihood_logd, F(x0))
+        else:
+            c.eq(f'{rnd}:cached_log_density_belongs_to_the_state', s.current_target_logd, F(x0))
+        if name == 'MALA':
+            c.eq(f'{rnd}:cached_gradient_belongs_to_the_state', np.asarray(s.current_target_grad), G(x0))
+
+
 def pcn_reversible(c, iface, n=1, prior_kind='Normal'):
     """log p0(x') + log q(x|x') == log p0(x) + log q(x'|x) for the proposal mechanism the code uses with a real
     Gaussian prior with symbolic mean and std: then the likelihood ratio IS the Metropolis-Hastings ratio."""
@@ -458,5 +489,9 @@ def jobs(tier):
     for iface, form in (('exp', 'posterior'), ('leg', 'posterior'), ('leg', 'tuple')):
         J.append(Job(f'{"experimental" if iface == "exp" else "legacy"}.pCN:public_constructor:target_form={form}', lambda c, i=iface, f=form: pcn_target_forms(c, i, f), 'Pbox',
                      [(EXP if iface == 'exp' else LEG) + '._pcn:' + ('PCN.validate_target' if iface == 'exp' else 'pCN.target')], nnum=3))
+    for name in ('MH', 'CWMH', 'PCN', 'MALA'):
+        J.append(Job(f'experimental.{name}:fresh_sampler_invariant:explicit_starting_point', lambda c, nm=name: fresh_sampler_invariant(c, nm), 'Pbox',
+                     [EXP + '._sampler:ProposalBasedSampler.initialize' if name in ('MH', 'CWMH') else EXP + '._sampler:Sampler.initialize', EXP + '._sampler:Sampler.reinitialize',
+                      EXP + {'MH': '._mh:MH._initialize', 'CWMH': '._cwmh:CWMH._initialize', 'PCN': '._pcn:PCN._initialize', 'MALA': '._langevin_algorithm:ULA._initialize'}[name]], nnum=4))
     J.append(Job('lemma:L-MH:detailed_balance', lemma_mh, 'Pinf', []))
     return J
